@@ -194,11 +194,16 @@ Proof.
 Qed.
 
 (** cone kinds whose membership check is proved sound: Zero/NN/SOC/Pow/GenPow here, the
-    exponential cone in LemmasExp.v, the PSD triangle cone in LemmasPsd.v (both files import this
-    one, so their results enter as section hypotheses guarded by a flag and are discharged in
-    LemmasFinal.v with both flags true) *)
-Definition certified_kind (exp_ok_proved psd_ok_proved : bool) (k : coneD) : bool :=
-  match k with KExp => exp_ok_proved | KPSD _ => psd_ok_proved | _ => true end.
+    exponential cone in LemmasExp.v, the PSD triangle cone in LemmasPsd.v, the power cone with a
+    general dyadic exponent ([alpha_pq a = None], real-exponent spec) in LemmasPowReal.v (these
+    files import this one, so their results enter as section hypotheses guarded by a flag and are
+    discharged in LemmasFinal.v with all flags true) *)
+Definition certified_kind (exp_ok_proved psd_ok_proved powr_ok_proved : bool) (k : coneD) : bool :=
+  match k with
+  | KExp => exp_ok_proved
+  | KPSD _ => psd_ok_proved
+  | KPow a => match alpha_pq a with Some _ => true | None => powr_ok_proved end
+  | _ => true end.
 
 Section Cones.
 (** soundness of the exponential-cone enclosure, supplied by LemmasExp.v *)
@@ -207,9 +212,15 @@ Hypothesis exp_sound : exp_proved = true -> forall v, exp_ok v = true -> in_exp 
 Hypothesis exp_dual_sound : exp_proved = true -> forall v, exp_dual_ok v = true -> in_exp_dual (vecR v).
 Variable psd_proved : bool.
 Hypothesis psd_sound : psd_proved = true -> forall n v, psd_ok n v = true -> in_psd n (vecR v).
+(** soundness of the real-exponent power-cone enclosure, supplied by LemmasPowReal.v *)
+Variable powr_proved : bool.
+Hypothesis powr_sound :
+  powr_proved = true -> forall a v, pow_real_ok a v = true -> in_pow_real (d2R a) (vecR v).
+Hypothesis powr_dual_sound :
+  powr_proved = true -> forall a v, pow_real_dual_ok a v = true -> in_pow_real_dual (d2R a) (vecR v).
 
 Lemma chk_cone_sound (dual : bool) k v :
-  certified_kind exp_proved psd_proved k = true -> chk_cone dual k v = Holds ->
+  certified_kind exp_proved psd_proved powr_proved k = true -> chk_cone dual k v = Holds ->
   if dual then in_dual k (vecR v) else in_cone k (vecR v).
 Proof.
   intros Hk H. unfold chk_cone in H.
@@ -222,10 +233,15 @@ Proof.
   - apply tri_holds in H. apply nn_ok_sound in H. destruct dual; unfold in_dual, in_cone; split; auto.
   - apply tri_holds in H. apply soc_ok_sound in H. destruct dual; unfold in_dual, in_cone; split; auto.
   - apply tri_holds in H. destruct dual; unfold in_dual, in_cone; split; auto.
-  - unfold in_dual, in_cone. destruct (alpha_pq a) as [[pp q]|]; [|destruct dual; discriminate].
-    apply tri_holds in H. destruct dual; split; auto.
-    + apply pow_dual_ok_sound; exact H.
-    + apply pow_ok_sound; exact H.
+  - unfold in_dual, in_cone. destruct (alpha_pq a) as [[pp q]|].
+    + apply tri_holds in H. destruct dual; split; auto.
+      * apply pow_dual_ok_sound; exact H.
+      * apply pow_ok_sound; exact H.
+    + cbv zeta in H. destruct dual; split; auto.
+      * destruct (pow_real_dual_ok a v) eqn:E; [|apply tri_holds in H; discriminate H].
+        apply powr_dual_sound; assumption.
+      * destruct (pow_real_ok a v) eqn:E; [|apply tri_holds in H; discriminate H].
+        apply powr_sound; assumption.
   - unfold in_dual, in_cone. destruct (alphas_pq al) as [[ps q]|]; [|destruct dual; discriminate].
     apply tri_holds in H. destruct dual; split; auto.
     + apply genpow_dual_ok_sound; exact H.
@@ -243,7 +259,7 @@ Lemma chunks_kinds {X} K (v : list X) : map fst (chunks K v) = K.
 Proof. revert v. induction K as [|k K IH]; intros v; cbn [chunks map fst]; [reflexivity|]. rewrite IH. reflexivity. Qed.
 
 Lemma chk_InK_sound (dual : bool) K v :
-  forallb (certified_kind exp_proved psd_proved) K = true -> chk_InK dual K v = Holds ->
+  forallb (certified_kind exp_proved psd_proved powr_proved) K = true -> chk_InK dual K v = Holds ->
   if dual then InKdual K (vecR v) else InK K (vecR v).
 Proof.
   intros HK H. unfold chk_InK in H. apply vall_holds in H.
@@ -259,7 +275,7 @@ Qed.
 
 (** * C01: the per-run certificate theorem *)
 Theorem chk_termtest_sound_gen tf tga tgr x s z :
-  forallb (certified_kind exp_proved psd_proved) (p_K p) = true ->
+  forallb (certified_kind exp_proved psd_proved powr_proved) (p_K p) = true ->
   chk_termtest p tf tga tgr x s z = Holds ->
   TermTest pr (d2R tf) (d2R tga) (d2R tgr) (vecR x) (vecR s) (vecR z).
 Proof.
